@@ -1344,9 +1344,11 @@ def run_C15(ctx):
     for k in range(ctx.n(40, 600)):        # scenarios aimed at refunds / amounts owed / applied-to-next-year
         year = (2021, 2022, 2023)[k % 3]
         sd = f'{ctx.seed}/c15/{k}'
-        pol, kind = sc.gen_policy(sd, year, kind=['plain', 'itemize', 'rich', 'deps', 'hsa'][k % 5])
+        pol, kind = sc.gen_policy(sd, year, kind=['plain', 'itemize', 'rich', 'deps', 'hsa', 'invest', 'invest'][k % 7])
         pol.fixed['1040.apply_to_estimated_tax'] = ['0', '', '250', '1000.55', '5000', '99999'][(k // 3) % 6]
         pol.fixed['estimated_tax_payments'] = ['0', '1500', '12000.5', '40000'][(k // 18) % 4]
+        if not k % 4:
+            pol.fixed.setdefault('1040.number_1098', '1')     # NC Schedule A line 1 needs a Form 1098 (int/float TypeError otherwise)
         r = sc.run(year, sc.request_for(sd, year, kind) if k % 4 else ['1040', 'nc_d-400'], pol)
         r['kind'], r['scenario_seed'] = kind, sd
         extra.append(r)
@@ -1633,16 +1635,34 @@ def run_C16(ctx):
         for f in ('w-2', '1099-int', '1099-div', '1099-r', '1098'):
             if sc.h01(sd, f, 'copies') < 0.45:
                 pol.fixed[f'1040.number_{f}'] = str(2 + int(sc.h01(sd, f, 'n') * 2))
+        if not k % 5:
+            pol.fixed.setdefault('1040.number_1098', '1')
         r = sc.run(year, ['1040'] if k % 5 else ['1040', 'nc_d-400'], pol)
-        r['kind'], r['scenario_seed'] = kind, sd
+        r['kind'], r['scenario_seed'], r['policy'] = kind, sd, pol
         runs.append(r)
     dis = tie_real(ctx, runs)
     dis += [{'diff': str(d)[:400]} for d in tie_f64_cents(ctx, ctx.n(15000, 200000))]
+    # federal + NC returns with children for every year and filing status (NC child deduction bands, credits)
+    for year in (2021, 2022, 2023):
+        for st in sc.STATUS_MEMBERS[year]:
+            for rep in range(ctx.n(1, 4)):
+                sd = f'{ctx.seed}/c16/nc/{year}/{st}/{rep}'
+                pol, kind = sc.gen_policy(sd, year, kind='deps')
+                pol.fixed.update({'1040.filing_status': st, '1040.number_dependents': str(1 + rep % 2), 'dependent_0_ctc': 'yes',
+                                  'dependent_1_ctc': 'yes', '1040.number_w-2': '1',
+                                  # NC Schedule A line 1 raises TypeError (int in a money line) when there is no Form 1098
+                                  '1040.number_1098': '1',
+                                  # wages are the only income, so that every step threshold can be reached by moving them
+                                  '1040.number_1099-int': '0', '1040.number_1099-div': '0', '1040.number_1099-r': '0',
+                                  '1040.number_1099-g': '0'})
+                r = sc.run(year, ['1040', 'nc_d-400'], pol)
+                r['kind'], r['scenario_seed'], r['policy'] = 'nc-children', sd, pol
+                runs.append(r)
     bad, pairs, solved = [], 0, 0
     for i, r in enumerate(runs):
         if r['exception'] is None and r['ok']:
             solved += 1
-            probs, n = to.oracle_c16(r, random.Random(f'{ctx.seed}/c16o/{i}'), ctx.n(2, 6))
+            probs, n = to.oracle_c16(r, random.Random(f'{ctx.seed}/c16o/{i}'), ctx.n(2, 6), all_steps=r.get('kind') == 'nc-children')
             pairs += n
             for key, msg, extra in probs:
                 bad.append((key, msg, dict(scenario_replay(r), transformation=extra)))
